@@ -868,7 +868,10 @@ static mi_segment_t* mi_segment_os_alloc( size_t required, size_t page_alignment
     mi_assert_internal(commit_needed>0);
     mi_commit_mask_create(0, commit_needed, &commit_mask);
     mi_assert_internal(commit_needed*MI_COMMIT_SIZE >= (*pinfo_slices)*MI_SEGMENT_SLICE_SIZE);
-    if (!_mi_os_commit(segment, commit_needed*MI_COMMIT_SIZE, NULL)) {
+    // a huge segment (required > 0) is never committed on demand: commit all of it now
+    const size_t commit_size = (required > 0 ? segment_size : commit_needed*MI_COMMIT_SIZE);
+    if (required > 0) { mi_commit_mask_create_full(&commit_mask); }
+    if (!_mi_os_commit(segment, commit_size, NULL)) {
       _mi_arena_free(segment,segment_size,0,memid);
       return NULL;
     }
